@@ -336,6 +336,10 @@ CONFLICT_SCRIPTS = [
     (("codeA",), ("out_edit_add",), ("out_edit2_add2",), {}, {}),   # conflict + common and one-sided appended outputs
     (("codeRes2",), ("out_edit",), ("out_edit_md",), {}, {}),    # conflict + one-sided nested change in the same list
     (("codeA",), ("del",), ("edit_rerun",), {}, {}),              # delete vs edit source and outputs
+    (("mdAtt1",), ("att_edit_1",), ("att_edit",), {}, {}),       # clean edits under an integer-like and an ordinary key
+    (("codeB",), ("del",), ("md_src",), {}, {}),                 # delete vs metadata + source edit
+    (("codeTr",), ("del",), ("collapsed_src",), {}, {}),         # delete vs transient flag + source edit
+    (("codeA",), ("md_empty_add",), ("md_empty_set",), {}, {}),  # empty-string metadata values
 ]
 
 
@@ -345,7 +349,9 @@ QUICK_TEMPLATES = ["codeA", "codeB", "mdAtt", "codeRes2", "codeS", "raw", "codeJ
 
 ACTS_INS = ["keep", "del", "src1"]
 ACTS_KEEP = ["keep"]
-ACTS_TRANSIENT = ["keep", "md_del_collapsed", "md_collapsed", "md_scrolled_true", "md_scrolled_auto", "md_edit", "ec"]
+ACTS_TRANSIENT = ["keep", "md_del_collapsed", "md_collapsed", "md_scrolled_true", "md_scrolled_auto", "md_edit", "ec",
+                  "del", "src1", "collapsed_src", "md_src"]
+ACTS_INTKEYS = ["keep", "att_edit_1", "att_edit", "md_edit_2024", "md_edit_note", "src1"]
 ACTS_LONG = ["keep", "src1", "src2", "src3", "src4", "src7", "src8", "src9", "del"]
 ACTS_OUTS = ["keep", "out_add_front", "out_ec", "out_del", "out_del_last", "out_edit", "out_add", "out_add2", "rerun",
              "rerun2", "out_edit_add", "out_edit2_add2", "out_edit_md", "edit_rerun", "del"]
@@ -376,6 +382,7 @@ def scenario_shards(tier, tool, kw):
     add("mime", templates=("codeMime",), acts="ACTS_SMALL", ins=(0, 0))
     add("unicode", templates=("codeU",), acts="ACTS_LINES", ins=(0, 0))
     add("lines", templates=("codeA",), acts="ACTS_LINES", ins=(0, 0))
+    add("intkeys", templates=("mdAtt1",), acts="ACTS_INTKEYS", ins=(0, 0))
     if tier == "thorough":
         add("runs-pair", templates=("codeA", "codeB"), acts="ACTS_KEEP", ins=(1, 1), runs=True)
         add("lol", templates=("codeLol",), acts="ACTS_SMALL", ins=(0, 0))
@@ -527,7 +534,8 @@ def use_shards(tier, props, known):
 # ------------------------------------------------------------------ C05 (notebooks)
 CLI_CONFIGS = [("inline", None, None, True), ("use-base", None, None, True), ("use-local", None, None, True),
                ("use-remote", None, None, True), ("inline", "use-local", "remove", False),
-               ("inline", None, "clear-all", True), ("mergetool", None, None, True)]
+               ("inline", None, "clear-all", True), ("mergetool", None, None, True),
+               ("inline", None, "remove", True)]
 
 
 def make_nblaws(templates, acts="ACTS_CODE", ins=1, nbacts=("keep",), ids=(0, 1), configs=(0,),
@@ -635,7 +643,8 @@ def nblaw_shards(tier, props, known):
                                                       configs=cfgs[:1], **kw)))
     for name, tm, acts in [("transient", "codeTr", "ACTS_TRANSIENT"), ("outputs", "codeRes2", "ACTS_OUTS"),
                            ("lines", "codeA", "ACTS_LINES")]:
-        out.append(("make_nbsymmetry", "nbsym-scn-%s" % name, dict(templates=(tm,), acts=acts, configs=cfgs[:1], **kw)))
+        out.append(("make_nbsymmetry", "nbsym-scn-%s" % name,
+                    dict(templates=(tm,), acts=acts, configs=(0, 7) if name == "outputs" else cfgs[:1], **kw)))
         out.append(("make_nblaws", "nblaw-scn-%s" % name, dict(templates=(tm,), acts=acts, ins=0, configs=cfgs, **kw)))
     return out
 
@@ -643,10 +652,11 @@ def nblaw_shards(tier, props, known):
 # ------------------------------------------------------------------ C06 (notebooks)
 OWN_ACTS = ["src1", "del", "rerun", "ec", "out_edit", "md_edit", "md_add", "out_clear"]
 OWN_ACTS_SMALL = ["src1", "del", "rerun", "md_edit"]
+OWN_ACTS_SHORT = ["del", "src1", "ec"]
 
 
 def make_owned(templates, ids=(0, 1), acts="OWN_ACTS", inserts=True, props=("C06",), known=(),
-               sym=("ec", "md")):
+               sym=("ec", "md"), ins_names=("N2", "Nm")):
     """Each base cell is owned by nobody, local or remote (E.choice); only the
     owner changes it.  A side may insert a new cell into a gap only if neither
     neighbouring cell is owned by the other side, and at most one side inserts
@@ -679,7 +689,7 @@ def make_owned(templates, ids=(0, 1), acts="OWN_ACTS", inserts=True, props=("C06
                     other = 3 - c
                     if (g > 0 and owner[g - 1] == other) or (g < n and owner[g] == other):
                         E.assume(False)
-                    (insl if c == 1 else insr)[g] = "N2" if c == 1 else "Nm"
+                    (insl if c == 1 else insr)[g] = ins_names[0] if c == 1 else ins_names[1]
         if not (any(o == 1 for o in owner) or insl) or not (any(o == 2 for o in owner) or insr):
             E.goal("one-sided-only")
         else:
@@ -734,6 +744,8 @@ def owned_shards(tier, props, known):
     for tm in bases:
         out.append(("make_owned", "owned-" + "-".join(tm),
                     dict(templates=tm, inserts=True, **kw)))
+    out.append(("make_owned", "owned3-short", dict(templates=("codeS1", "codeS2", "codeS3"), inserts=True,
+                                                   acts="OWN_ACTS_SHORT", ins_names=("Ns", "Ns"), ids=(0,), **kw)))
     if tier == "quick":
         out.append(("make_owned", "owned3-codeA-codeB-md",
                     dict(templates=("codeA", "codeB", "md"), inserts=False, acts="OWN_ACTS_SMALL", **kw)))
@@ -835,7 +847,7 @@ STUBS = ["nbdime.prettyprint.which -> answers according to the tool selector (gi
 BOUNDS = {
     "quick": {
         "default-strategy scripts": "one-cell bases over 8 templates: (i) every local action x every remote action (17 code / 11 markdown actions), (ii) every insertion combination (4 x 5) x {keep, del, src1}^2, (iii) notebook-level actions {keep, md_edit, md_add, md_del, minor}^2 on two templates; two-cell base codeA+codeB x 6 actions per cell and side; ids on/off",
-        "strategy product": "34 conflict-prone script pairs x (4 merge x 5 input x 7 output strategies x transients on/off + mergetool) x {git, diff3, builtin}",
+        "strategy product": "38 conflict-prone script pairs x (4 merge x 5 input x 7 output strategies x transients on/off + mergetool) x {git, diff3, builtin}",
         "leaves": "symbolic: execution counts, metadata values (any JSON scalar type), JSON payload numbers, nbformat_minor of each notebook (0..4, or 5 with ids)",
     },
     "thorough": {
